@@ -553,6 +553,16 @@ class Exec(object):
             return self.lv(base, st)
         if n.get("isArrow"):
             for s, p in self.ev(base, st):
+                df = getattr(self.ctx, "deref_fields", None)
+                if df and p.op == "select" and p.args[0].op in ("sym", "store"):
+                    b_ = p.args[0]
+                    while b_.op == "store":
+                        b_ = b_.args[0]
+                    fname = b_.args[0].split(".", 1)[-1].split(":")[0] if b_.op == "sym" else ""
+                    if fname in df:
+                        e_ = Event("deref", p, [tm.strc(fname), tm.strc(name)], tm.num(0, "I"), node=n)
+                        e_.snap = list(s.pc)          # the facts known when the pointer is dereferenced
+                        s.events.append(e_)
                 out.append((s, ("field", name, p)))
         else:
             for s, l in self.lv(base, st):
@@ -677,8 +687,13 @@ class Exec(object):
             for s1, va in self.ev(a, st):
                 ca = tm.to_bool(va)
                 if self.pure_expr(b):
+                    n_ev = len(s1.events)
                     for s2, vb in self.ev(b, s1):
                         cb = tm.to_bool(vb)
+                        # short circuit: whatever the right operand dereferences is only dereferenced when the left one lets it be evaluated
+                        for e_ in s2.events[n_ev:]:
+                            if e_.name == "deref" and e_.snap is not None:
+                                e_.snap = list(e_.snap) + [ca if op == "&&" else tm.not_(ca)]
                         out.append((s2, tm.and_(ca, cb) if op == "&&" else tm.or_(ca, cb)))
                 else:
                     need = ca if op == "&&" else tm.not_(ca)
